@@ -158,8 +158,8 @@ func genC18(verifSeed int64, tier string, idx int) *core.Scenario {
 		b = repoFile("bom-1.4.json")
 	}
 	sp.Streams = append(sp.Streams, b64(b))
-	wopts := []string{"format", "render", "serialize", "fmtopts", "storeopts", "drvopts"}
-	ropts := []string{"fmtopts", "unserialize", "retrieve", "drvopts"}
+	wopts := []string{"format", "render", "serialize", "fmtopts", "storeopts", "drvopts", "render-nil", "serialize-nil", "storeopts-nil", "store-nil"}
+	ropts := []string{"fmtopts", "unserialize", "retrieve", "drvopts", "unserialize-nil", "retrieve-nil", "store-nil", "sniffer-nil"}
 	call := 0
 	for t := 0; t < ntasks; t++ {
 		n := 3 + r.Intn(10)
@@ -444,6 +444,14 @@ func (env *c18env) mkOp(rec *opRec) func() string {
 				case "fmtopts":
 					opts = append(opts, writer.WithFormatOptions(fmt.Sprintf("key-%d", op.I), fmt.Sprintf("val-%d", op.I)))
 					model[fmt.Sprintf("fmtopt:key-%d", op.I)] = fmt.Sprintf("val-%d", op.I)
+				case "render-nil": // a nil argument is documented (by the code) to leave the option alone
+					opts = append(opts, writer.WithRenderOptions(nil))
+				case "serialize-nil":
+					opts = append(opts, writer.WithSerializeOptions(nil))
+				case "storeopts-nil":
+					opts = append(opts, writer.WithStoreOptions(nil))
+				case "store-nil":
+					opts = append(opts, writer.WithStoreRetriever(nil))
 				case "drvopts":
 					opts = append(opts, writer.WithFormatOptions(c18SerKey, fmt.Sprintf("inst-%d", op.I)))
 					model["fmtopt:"+c18SerKey] = fmt.Sprintf("inst-%d", op.I)
@@ -480,6 +488,14 @@ func (env *c18env) mkOp(rec *opRec) func() string {
 				case "fmtopts":
 					opts = append(opts, reader.WithFormatOptions(fmt.Sprintf("key-%d", op.I), fmt.Sprintf("val-%d", op.I)))
 					model[fmt.Sprintf("fmtopt:key-%d", op.I)] = fmt.Sprintf("val-%d", op.I)
+				case "unserialize-nil":
+					opts = append(opts, reader.WithUnserializeOptions(nil))
+				case "retrieve-nil":
+					opts = append(opts, reader.WithRetrieveOptions(nil))
+				case "store-nil":
+					opts = append(opts, reader.WithStoreRetriever(nil))
+				case "sniffer-nil":
+					opts = append(opts, reader.WithSniffer(nil))
 				case "drvopts":
 					opts = append(opts, reader.WithFormatOptions(c18UnserKey, fmt.Sprintf("inst-%d", op.I)))
 					model["fmtopt:"+c18UnserKey] = fmt.Sprintf("inst-%d", op.I)
